@@ -97,6 +97,7 @@ type VC struct {
 	havocked bool
 	mergedResults []SVal
 	assertDone    map[string]bool
+	crossAssumed  map[string]bool
 }
 
 type debugBinding struct {
